@@ -22,6 +22,7 @@ type pipe struct {
 	werr    error
 	werr1   bool // fail exactly the next write
 	stuck   bool
+	cap     int // > 0: a Write blocks while cap envelopes are queued unread (back-pressure, like an unbuffered channel or a full socket)
 	wake    chan struct{}
 	conn    int
 	wEv     string // event name for writes ("CW" or "SW"), "" = silent
@@ -72,7 +73,7 @@ func (p *pipe) Write(ctx context.Context, r *goat.Rpc) error {
 			p.mu.Unlock()
 			return err
 		}
-		if !p.stuck {
+		if !p.stuck && (p.cap == 0 || len(p.q) < p.cap) {
 			var cp *goat.Rpc
 			if p.ser {
 				b, err := proto.Marshal(r)
@@ -128,6 +129,9 @@ func (p *pipe) Read(ctx context.Context) (*goat.Rpc, error) {
 				e := envEv(p.rEv, p.conn, r)
 				e.N = p.nR
 				tr.emit(e)
+			}
+			if p.cap > 0 {
+				p.broadcastLocked() // a writer may be waiting for room
 			}
 			p.mu.Unlock()
 			return r, nil
